@@ -282,7 +282,8 @@ def _tiled_case(rng, bad):
          'rowcos': _fs(rc), 'colcos': _fs(cc), 'spr': str(_sp(rng)), 'spc': str(_sp(rng)),
          'origin': _fs([_dy(rng, 0, 200), _dy(rng, 0, 200)]), 'M': M, 'api': api,
          'typ': rng.choice(['BINARY', 'LABELMAP']), 'omit': rng.random() < 0.6,
-         'tiled_full': rng.random() < 0.4}
+         'tiled_full': rng.random() < 0.4,
+         'srcz': rng.choice([None, None, '0', str(_dy(rng, -40, 40, (1, 2, 4, 8)))])}
     as_idx = rng.random() < 0.5
     c['as_idx'] = as_idx
     if not bad:
@@ -337,7 +338,8 @@ def _pyr_case(rng, bad):
     M[0][0] = 1
     return {'kind': 'pyramid_err' if bad else 'pyramid', 'R': R, 'C': C, 'th': th, 'tw': tw, 'rank': rank,
             'typ': typ, 'nseg': nseg, 'fs': [str(f) for f in fs], 'rowcos': _fs(rc), 'colcos': _fs(cc),
-            'spr': str(_sp(rng)), 'spc': str(_sp(rng)), 'origin': _fs([_dy(rng, 0, 200), _dy(rng, 0, 200)]), 'M': M}
+            'spr': str(_sp(rng)), 'spc': str(_sp(rng)), 'origin': _fs([_dy(rng, 0, 200), _dy(rng, 0, 200)]), 'M': M,
+            'srcz': rng.choice([None, None, str(_dy(rng, -40, 40, (1, 2, 4, 8)))])}
 
 
 def _other_orient(rng, rc, cc, pool=None):
@@ -754,9 +756,12 @@ def _get_vol(c, seg, kw):
 def _build_sm(c, samples=3):
     import synth
     rc, cc = [_f(x) for x in c['rowcos']], [_f(x) for x in c['colcos']]
-    return synth.sm_tiled(c['R'], c['C'], c['th'], c['tw'], tiled_full=True, samples=samples,
-                          origin=(_f(c['origin'][0]), _f(c['origin'][1])),
-                          spacing=(_f(c['spr']), _f(c['spc'])), orientation=rc + cc)
+    sm = synth.sm_tiled(c['R'], c['C'], c['th'], c['tw'], tiled_full=True, samples=samples,
+                        origin=(_f(c['origin'][0]), _f(c['origin'][1])),
+                        spacing=(_f(c['spr']), _f(c['spc'])), orientation=rc + cc)
+    if c.get('srcz') is not None:      # the source's own focal plane (attribute absent = 0)
+        sm.TotalPixelMatrixOriginSequence[0].ZOffsetInSlideCoordinateSystem = _f(c['srcz'])
+    return sm
 
 
 def _place_eff(c):
@@ -777,8 +782,6 @@ def _run_place(c):
     import highdicom as hd
     import synth
     sm = _build_sm(c)
-    if c['srcz'] is not None:
-        sm.TotalPixelMatrixOriginSequence[0].ZOffsetInSlideCoordinateSystem = _f(c['srcz'])
     src_org, usr_org, rc, cc, spr, spc, sbs = _place_eff(c)
     MR, MC = c['MR'], c['MC']
     mask = np.array(c['M'], np.uint8).reshape(1, MR, MC)
@@ -810,7 +813,14 @@ def _run_place(c):
                 spacing_between_slices=None if sbs is None else float(sbs))
 
     def f():
+        import copy
+        given = [sm, kw.get('plane_positions'), kw.get('plane_orientation'), kw.get('pixel_measures')]
+        before = copy.deepcopy(given)
+        aff0 = pix.affine if c['entry'] == 'volume' else None
         seg = synth.make_seg([sm], pix, c['typ'], [1], **kw)
+        # the constructor leaves the source image and the caller's position / orientation / measures alone
+        untouched = (given == before and np.array_equal(mask, np.array(c['M'], np.uint8).reshape(1, MR, MC)) and
+                     (aff0 is None or np.array_equal(aff0, pix.affine)))
         if c['file_rt']:
             seg = synth.write_read(seg, hd.seg.segread)
         it = seg.TotalPixelMatrixOriginSequence[0]
@@ -833,7 +843,7 @@ def _run_place(c):
                                float(pp.XOffsetInSlideCoordinateSystem), float(pp.YOffsetInSlideCoordinateSystem),
                                float(pp.ZOffsetInSlideCoordinateSystem)])
             frames.sort()
-        return [rec, geo, vol, frames]
+        return [rec, geo, vol, frames, bool(untouched)]
     return catch(f)
 
 
@@ -974,11 +984,11 @@ def coq_term(c):
               f"{_planes(c['arr'])} {_b(c['omit'])})")
         return f"(run_stored {_b(c['allow_missing'])} {st} {_args(c)})"
     if k in ('tiled', 'tiled_err'):
-        pos = [c['origin'][0], c['origin'][1], '0']
+        pos = [c['origin'][0], c['origin'][1], c.get('srcz') or '0']
         return (f"(run_tiled {_b(c['api'] == 'seg')} {_v3(pos)} {_v3(c['rowcos'])} {_v3(c['colcos'])} "
                 f"{qlit(F(c['spr']))} {qlit(F(c['spc']))} None {zlit(c['R'])} {zlit(c['C'])} {zll(c['M'])} {_args(c)})")
     if k in ('pyramid', 'pyramid_err'):
-        pos = [c['origin'][0], c['origin'][1], '0']
+        pos = [c['origin'][0], c['origin'][1], c.get('srcz') or '0']
         fs = '[' + '; '.join(qlit(F(x)) for x in c['fs']) + ']'
         return (f"(run_pyramid {_v3(pos)} {_v3(c['rowcos'])} {_v3(c['colcos'])} {zlit(c['R'])} {zlit(c['C'])} "
                 f"{qlit(F(c['spr']))} {qlit(F(c['spc']))} {fs})")
@@ -1131,7 +1141,9 @@ def _oracle_place(c, out):
         return f'valid placement refused: {out}'
     if malformed:
         return 'more than one plane position / a position that is not the top left corner was accepted'
-    rec, geo, vol, frames = out
+    rec, geo, vol, frames, untouched = out
+    if untouched is not True:
+        return 'the constructor modified the source image or the position / orientation / measures objects passed in'
     org = np.array([float(x) for x in usr_org])
     rcv, ccv = np.array([float(x) for x in rc]), np.array([float(x) for x in cc])
     spr, spc = float(spr), float(spc)
@@ -1277,7 +1289,7 @@ def oracle(c, out):
         rc = np.array([_f(x) for x in c['rowcos']])
         cc = np.array([_f(x) for x in c['colcos']])
         spr, spc = _f(c['spr']), _f(c['spc'])
-        org = np.array([_f(c['origin'][0]), _f(c['origin'][1]), 0.0])
+        org = np.array([_f(c['origin'][0]), _f(c['origin'][1]), _f(c.get('srcz') or 0)])
         if geo is None or geo[0] != [1, c['R'], c['C']]:
             return f'geometry {geo}'
         G = np.array(geo[1])
@@ -1325,6 +1337,9 @@ def oracle(c, out):
             A = np.array(aff)
             if not (_close(np.linalg.norm(A[:, 1]), a) and _close(np.linalg.norm(A[:, 2]), b)):
                 return f'level {lvl}: geometry spacing differs from recorded PixelSpacing'
+            org = [_f(c['origin'][0]), _f(c['origin'][1]), _f(c.get('srcz') or 0)]
+            if not all(_close(x, y) for x, y in zip(A[:, 3], org)):
+                return f'level {lvl}: origin {A[:, 3].tolist()} is not the origin {org} of the source image'
         return None
     if k == 'pyramid_err':
         return None if isinstance(out, Err) else 'malformed down-sampling factors accepted'
